@@ -87,6 +87,22 @@ def gen_sem_case(rng, cid):
     return {"id": cid, "kind": "sem", "max": mx, "timeout_us": tmo, "ops": ops, "fam": fam}
 
 
+def gen_free_case(rng, cid, quick):
+    """A time-out or a cancellation racing with a send that can succeed (free or just freed slot)."""
+    mode = rng.choice(["t1ns", "t1ns", "precancelled", "precancelled", "concancel", "wake", "wake"])
+    mx = rng.choice([1, 2, 3, 5])
+    via = "acquire" if mode == "wake" else rng.choice(["acquire", "handler"])
+    if mode == "t1ns":
+        n = rng.randint(300, 500)
+    elif mode == "wake":
+        n = rng.randint(12, 30) if quick else rng.randint(30, 80)
+    else:
+        n = rng.randint(100, 300)
+    return {"id": cid, "kind": "free", "max": mx, "mode": mode, "via": via, "n": n,
+            "hold": 0 if mode == "wake" else rng.randint(0, mx - 1),
+            "timeout_ns": {"t1ns": 1, "wake": 10**9}.get(mode, 50 * 10**6)}
+
+
 POW2 = [512, 256, 128, 64]
 DECPPS = [1000, 2000, 4000, 5000, 10000, 20000, 50000, 100000]
 
@@ -148,6 +164,9 @@ def gen_cases(ctx, hook):
     for _ in range(140 if quick else 900):
         cid += 1
         cases.append(gen_sem_case(ctx.rng, cid))
+    for _ in range(40 if quick else 300):
+        cid += 1
+        cases.append(gen_free_case(ctx.rng, cid, quick))
     for _ in range(140 if quick else 1200):
         cid += 1
         cases.append(gen_rate_case(ctx.rng, cid))
@@ -282,6 +301,92 @@ def sem_oracle(case, obs):
     if obs["cr_end"] != 0:
         return ("sem:permit-leak", "all %d requests have ended but ConcurrentRequests() = %d: permits never returned"
                 % (len(launched), obs["cr_end"]))
+    return None
+
+
+# ----------------------------------------------------------------------------- free: model side
+
+def free_model_line(case, obs):
+    """Quiescent observations -> schedule.  acq nil: enter, acquire.  acq timeout: enter, time-out.
+    rel: end of the (empty) critical section, release.  inv ok: all four steps.  inv timeout: enter,
+    time-out.  Returns the line and, per observation, the index of its last model step."""
+    evs, last = [], []
+    n = max([st["i"] for st in obs["steps"]] + [-1]) + 1
+    for st in obs["steps"]:
+        i = st["i"]
+        if st["op"] == "acq":
+            evs += ["E%d" % i, ("A%d" if st["err"] == "nil" else "T%d") % i]
+        elif st["op"] == "rel":
+            evs += ["Fo%d" % i, "R%d" % i]
+        else:
+            evs += ["E%d" % i] + (["A%d" % i, "Fo%d" % i, "R%d" % i] if st["err"] == "nil" else ["T%d" % i])
+        last.append(len(evs) - 1)
+    return "sem %d %d %d %s" % (case["max"], case["timeout_ns"], n, " ".join(evs)), last
+
+
+def free_compare(case, obs, mout, last):
+    if mout.startswith("MODEL-ERROR"):
+        return "model runner failed: " + mout
+    if obs.get("stuck"):
+        return "the implementation stopped making progress: " + obs["stuck"]
+    head = mout.split(" ")[0]
+    f = dict(x.split("=", 1) for x in mout.split(" ")[1:])
+    chans = [int(x) for x in f["chans"].split(",")] if f.get("chans") else []
+    for k, st in enumerate(obs["steps"]):
+        if st.get("err") == "other":
+            return "step %d: unexpected error %s" % (k, st.get("msg"))
+        if last[k] >= len(chans):
+            return "the observed calls are not a run of the model: step %s not enabled (call %d: %s %s)" % (head, k, st["op"], st.get("err"))
+        if st["cr"] >= 0 and chans[last[k]] != st["cr"]:
+            return "after call %d (%s %s) ConcurrentRequests() = %d, model channel holds %d" % (
+                k, st["op"], st.get("err", ""), st["cr"], chans[last[k]])
+        if st["op"] == "inv" and st["reach"] != (1 if st["err"] == "nil" else 0):
+            return "call %d: error %s but downstream ran %d times" % (k, st["err"], st["reach"])
+    if head != "ok":
+        return "the observed calls are not a run of the model: " + head
+    if int(f["chan"]) != obs["cr_end"]:
+        return "ConcurrentRequests() at the end %d, model channel %s" % (obs["cr_end"], f["chan"])
+    if not obs["fresh_ok"]:
+        return "no fresh request got in (%d tries), model channel %s of %d" % (obs["fresh_tries"], f["chan"], case["max"])
+    return None
+
+
+def free_oracle(case, obs):
+    """Property text: nil => exactly one permit taken until Release; ErrTimeout => no permit taken and
+    downstream not run; at the end nothing is held and a fresh request gets in."""
+    cnt = 0
+    for k, st in enumerate(obs["steps"]):
+        before = cnt
+        if st["op"] == "acq":
+            if st["err"] == "nil":
+                cnt += 1
+            elif st["err"] != "timeout":
+                return ("sem:error", "call %d: unexpected error %s" % (k, st.get("msg")))
+        elif st["op"] == "rel":
+            cnt -= 1
+        else:
+            if st["err"] == "nil" and st["reach"] != 1:
+                return ("sem:result-mismatch", "invoke %d returned no error but the downstream handler ran %d times" % (k, st["reach"]))
+            if st["err"] == "timeout" and st["reach"] != 0:
+                return ("sem:timeout-ran", "invoke %d returned ErrTimeout although the downstream handler ran" % k)
+            if st["err"] == "other":
+                return ("sem:error", "invoke %d: unexpected error %s" % (k, st.get("msg")))
+        if st["cr"] > case["max"]:
+            return ("sem:cr-exceeds-max", "ConcurrentRequests() = %d > max %d" % (st["cr"], case["max"]))
+        if st["cr"] >= 0 and st["cr"] != cnt:
+            if st.get("err") == "timeout":
+                return ("sem:timeout-kept-permit", "call %d (%s, mode %s) returned ErrTimeout but ConcurrentRequests() is %d where %d "
+                        "permits are accounted for: the timed-out call took a permit that nobody will release"
+                        % (k, st["op"], case["mode"], st["cr"], cnt))
+            return ("sem:permit-count", "after call %d (%s %s) ConcurrentRequests() is %d, %d permits are accounted for"
+                    % (k, st["op"], st.get("err", ""), st["cr"], cnt))
+    if obs.get("stuck"):
+        return ("sem:wedged", "limiter stopped making progress: " + obs["stuck"])
+    if obs["cr_end"] != 0:
+        return ("sem:permit-leak", "all calls have ended and every permit that was handed out was released, "
+                "but ConcurrentRequests() = %d" % obs["cr_end"])
+    if not obs["fresh_ok"]:
+        return ("sem:wedged", "a fresh request did not get in in %d tries although nothing is held" % obs["fresh_tries"])
     return None
 
 
@@ -564,6 +669,9 @@ def evaluate(ctx, cases, byid, hook):
     sem = [(c, byid[c["id"]]) for c in cases if c["kind"] == "sem" and not byid[c["id"]].get("skipped")]
     sem_lines = [sem_model_line(c, o) for c, o in sem]
     sem_out = hv.run_model("c17", [l for l, _ in sem_lines]) if sem else []
+    free = [(c, byid[c["id"]]) for c in cases if c["kind"] == "free"]
+    free_lines = [free_model_line(c, o) for c, o in free]
+    free_out = hv.run_model("c17", [l for l, _ in free_lines]) if free else []
     rate = [(c, byid[c["id"]]) for c in cases if c["kind"] == "rate"]
     rate_out = hv.run_model("c17", [rate_model_line(c, o) for c, o in rate]) if rate else []
     plug = [(c, byid[c["id"]]) for c in cases if c["kind"] == "plug"]
@@ -597,6 +705,22 @@ def evaluate(ctx, cases, byid, hook):
         if w:
             oracle_hits.append((c, o, w[0], w[1]))
     ctx.note("sem_skipped_after_stuck", sum(1 for c in cases if c["kind"] == "sem" and byid[c["id"]].get("skipped")))
+
+    for (c, o), (line, last), mout in zip(free, free_lines, free_out):
+        outs = set(fs["err"] for fs in o["steps"] if fs["op"] in ("acq", "inv"))
+        ctx.count_case("free|%d|%s|%s|%d|%d" % (c["max"], c["mode"], c["via"], c["n"], c["hold"]), len(outs) > 1)
+        ctx.bump("free_mode", c["mode"] + "/" + c["via"])
+        for fs in o["steps"]:
+            if fs["op"] in ("acq", "inv"):
+                ctx.bump("free_race_outcomes", c["mode"] + ":" + fs["err"])
+        d = free_compare(c, o, mout, last)
+        if d:
+            disagreements.append((c, o, d))
+        else:
+            agree += 1
+        w = free_oracle(c, o)
+        if w:
+            oracle_hits.append((c, o, w[0], w[1]))
 
     for (c, o), mout in zip(rate, rate_out):
         waits = sum(1 for co in o["calls"] if co["err"] == "nil" and co["last"] > co["b"])
@@ -696,7 +820,9 @@ def run(ctx):
     disagreements, oracle_hits = evaluate(ctx, cases, byid, hook)
     ctx.note("rule", "seeded random cases. sem: scripts over max in {1..8} x timeout {none,20..30ms} with blocked waiters, waiters that must "
              "time out while all permits are held, releases racing with timers, ends by response/error/panic; non-trivial = at least one "
-             "request had to wait. rate/plug: 6..24 sequential calls, power-of-two and decimal intervals, maxPermits {Inf,0..}, timeouts, idle "
+             "request had to wait. free: 100..500 calls of Acquire/Release or Invoke whose time-out (1ns) or cancellation (before, during, "
+             "or together with a release to a blocked caller) races with a send that can succeed; permit count checked after every call; "
+             "non-trivial = both outcomes of the race occurred. rate/plug: 6..24 sequential calls, power-of-two and decimal intervals, maxPermits {Inf,0..}, timeouts, idle "
              "gaps, real waits or cancelled context; non-trivial = at least one call waited or was rejected. conc (with hook): forced "
              "interleaved / atomic load-store schedules. distinct by full case text")
     ctx.note("exhaustive", False)
@@ -711,9 +837,9 @@ def run(ctx):
     if disagreements and not oracle_hits:
         c, o, d = disagreements[0]
         ctx.report("correspondence:" + c["kind"], "Model/%s no longer matches the plugin (theorems C17_* not transferred): %s"
-                   % ("Sem.v" if c["kind"] == "sem" else "Rate.v", d),
+                   % ("Sem.v" if c["kind"] in ("sem", "free") else "Rate.v", d),
                    {"case": c, "observation": o, "failing_input": False, "disagreement": d,
-                    "correspondence": {"sem": "Sem.run vs ConcurrentLimiter.Handler", "rate": "Rate.acquire vs RateLimiter.Acquire",
+                    "correspondence": {"sem": "Sem.run vs ConcurrentLimiter.Handler", "free": "Sem.run vs ConcurrentLimiter.Acquire/Release/Handler", "rate": "Rate.acquire vs RateLimiter.Acquire",
                                        "plug": "Rate.acquire x2 vs RateLimiter.InvokeHandler/IOHandler",
                                        "conc": "Rate.rrun vs RateLimiter.Acquire under a forced schedule"}[c["kind"]],
                     "disagreeing_cases": len(disagreements)})
@@ -738,6 +864,6 @@ def replay(ctx, path):
         print("harness crashed:", err[-500:])
         return 1
     o = obs[0]
-    why = {"sem": sem_oracle, "rate": rate_oracle, "plug": plug_oracle, "conc": conc_oracle}[case["kind"]](case, o)
+    why = {"sem": sem_oracle, "free": free_oracle, "rate": rate_oracle, "plug": plug_oracle, "conc": conc_oracle}[case["kind"]](case, o)
     print("property oracle:", why)
     return 1 if why else 0
